@@ -86,23 +86,32 @@ def _spec_path_dirs():
     return [SPEC, os.path.join(SPEC, 'mc'), os.path.join(SPEC, 'gen'), os.path.join(SPEC, 'trace')]
 
 
-def prove(module, timeout=900):
-    """Checks the TLAPS proofs of spec/<module>.tla with tlapm (in a scratch directory).  -> number of obligations.
-    A proof that does not check is a failure of the machinery (the committed proofs are green), never a verdict
-    about the code."""
+def prove(module, timeout=600):
+    """Re-checks the TLAPS proofs of spec/<module>.tla with tlapm (in a scratch directory).
+    -> dict(module, proved, obligations, wall_s[, reason]).  The proofs are statements about the SPECIFICATION
+    only - no change to the code under test can make them fail - so the outcome is reported (log line, evidence key
+    tlaps_proofs) and never turns into a verdict or a machinery failure of the check: a missing tlapm binary or a
+    back end timing out on a loaded machine must not break a check whose verdict does not depend on it."""
     import shutil
     d = tempfile.mkdtemp(prefix='verif-prove-')
+    t0 = time.time()
     try:
         for fn in os.listdir(SPEC):           # the module and whatever it EXTENDS
             if fn.endswith('.tla') and fn != 'TLAPS.tla':
                 shutil.copy(os.path.join(SPEC, fn), d)
-        t0 = time.time()
-        p = subprocess.run(['tlapm', module + '.tla'], cwd=d, stdout=subprocess.PIPE, stderr=subprocess.STDOUT,
-                           text=True, timeout=timeout)
+        try:
+            p = subprocess.run(['tlapm', module + '.tla'], cwd=d, stdout=subprocess.PIPE, stderr=subprocess.STDOUT,
+                               text=True, timeout=timeout)
+        except (OSError, subprocess.TimeoutExpired) as e:
+            return dict(module=module, proved=False, obligations=0, wall_s=round(time.time() - t0, 1),
+                        reason='tlapm could not be run: %r' % (e,))
         m = re.search(r'All (\d+) obligations? proved', p.stdout)
         if not m:
-            raise MachineryError('tlapm did not prove %s:\n%s' % (module, p.stdout[-2000:]))
-        return dict(module=module, obligations=int(m.group(1)), wall_s=round(time.time() - t0, 1))
+            f = re.search(r'(\d+)/(\d+) obligations failed', p.stdout)
+            return dict(module=module, proved=False, obligations=int(f.group(2)) if f else 0,
+                        wall_s=round(time.time() - t0, 1),
+                        reason=(f.group(0) if f else 'no result line') + ': ' + p.stdout[-300:].replace('\n', ' '))
+        return dict(module=module, proved=True, obligations=int(m.group(1)), wall_s=round(time.time() - t0, 1))
     finally:
         shutil.rmtree(d, ignore_errors=True)
 
